@@ -44,8 +44,11 @@ class Evaluator:
             tuple: [('metric_name', metric_val), ...]
         """
         
-        labels_numpy = labels.squeeze().detach().numpy()
-        outputs_numpy = outputs.squeeze().detach().numpy()
+        def drop_singleton(a): # (B,1,...) -> (B,) but never drops the batch dimension
+            a = a.reshape(len(a), -1)
+            return a[:, 0] if a.shape[1] == 1 else a
+        labels_numpy = drop_singleton(labels.detach().numpy())
+        outputs_numpy = drop_singleton(outputs.detach().numpy())
         
         
         if self.mode == self.BINARY:
